@@ -636,6 +636,10 @@ namespace {
       for (int k = 1; k < base.steps; ++k) { Env e; e.print_at = { k }; envs.push_back(e); }
       { Env e; for (int k = 1; k < base.steps; ++k) e.print_at.push_back(k); envs.push_back(e); }
       if (pairs_of_noise) for (int k = 0; k < base.steps; ++k) for (int l = k + 1; l < base.steps; ++l) { Env e; e.noise_at = { k, l }; e.alloc = 1 + (k + l) % 3; envs.push_back(e); }
+      if (rep.samples.size() < rep.sample_cap and base.outcome == "completed") {
+         std::string text = base.on.substr(0, 160);
+         rep.sample(vf::JObj{}.str("program", prog_text(p)).num("histories", (long long) envs.size() + 1).num("construction_steps", base.steps).str("text_with_locations_first_160_bytes", text).done());
+      }
       for (auto& e : envs) {
          Result r = run(p, e);
          rep.count("transitions");
